@@ -348,6 +348,22 @@ func init() {
 	reg("(reflect.rtype).Kind", ext۰reflect۰rtype۰Kind)
 	reg("(reflect.rtype).String", ext۰reflect۰rtype۰String)
 	reg("(reflect.rtype).Elem", ext۰reflect۰rtype۰Elem)
+	// Name / PkgPath: of a defined type (or basic type); "" for unnamed composite types, as reflect does
+	reg("(reflect.rtype).Name", func(fr *frame, a []value) value {
+		switch t := types.Unalias(a[0].(rtype).t).(type) {
+		case *types.Named:
+			return t.Obj().Name()
+		case *types.Basic:
+			return t.Name()
+		}
+		return ""
+	})
+	reg("(reflect.rtype).PkgPath", func(fr *frame, a []value) value {
+		if t, ok := types.Unalias(a[0].(rtype).t).(*types.Named); ok && t.Obj().Pkg() != nil {
+			return t.Obj().Pkg().Path()
+		}
+		return ""
+	})
 	reg("(reflect.error).Error", ext۰reflect۰error۰Error)
 }
 
